@@ -109,6 +109,17 @@ func NewAt(blockTime int64, extraDenoms ...string) *Env {
 	return e
 }
 
+// Restart models a process restart: the same committed stores, freshly constructed keepers (everything a keeper
+// holds in memory is lost; account / bank keepers and the fee market stub hold nothing).
+func (e *Env) Restart() *Env {
+	r := *e
+	r.EK = evmkeeper.NewKeeper(model.CodecFor(e.AK), EvmKey, EvmTKey, authority, e.AK, e.BK, nil, e.FM, Tracer, paramstypes.Subspace{})
+	r.CK = cpckeeper.NewKeeper(model.CodecFor(e.AK), CpcKey, authority, e.AK, e.BK, stakingkeeper.Keeper{}, distkeeper.Keeper{})
+	r.EK.WithCpcKeeper(r.CK)
+	r.VK = vauthkeeper.NewKeeper(model.CodecFor(e.AK), VAuthKey, e.BK, *r.EK)
+	return &r
+}
+
 func (e *Env) SetBalance(addr []byte, denom string, amt *big.Int) {
 	if verif.Symbolic() {
 		e.mbk.SetBalanceRaw(e.Ctx, addr, denom, sdkmath.NewIntFromBigInt(amt))
